@@ -114,7 +114,14 @@ pub fn operand_text(kind: OpKind, name: &str, i: usize) -> String {
         OpKind::IntEqRev => format!("1 == int(g{})", i),
         OpKind::IntGe => format!("int(g{}) >= 1", i),
         OpKind::FltLt => format!("flt(g{}) < 1.5", i),
-        OpKind::StrEq => format!("str(g{}) == str(h{})", i, i),
+        OpKind::StrEq => {
+            // `string(` is the deprecated spelling of `str(`
+            if i % 2 == 1 {
+                format!("string(g{}) == str(h{})", i, i)
+            } else {
+                format!("str(g{}) == str(h{})", i, i)
+            }
+        }
         OpKind::IntLe => format!("int(g{}) <= 1", i),
         OpKind::IntGt => format!("int(g{}) > 1", i),
         OpKind::IntLt => format!("1 < int(g{})", i),
